@@ -28,16 +28,17 @@ RULE = ("indices: every index below the tier bound (quick 4096, thorough 262144)
         "non-trivial = index >= 2 / at least two states; distinct = distinct (probe, pairing, d, block or shape)")
 NOT_PROVED = ["HyperbolicPairing (divisor-summatory inverse + factorisation): bijectivity not proved, round trips "
               "oracle-checked for indices < 2000 and a 40x40 square only",
-              "Rosenberg-Strong in d >= 3: pairing/projection mutually inverse is compared and oracle-checked, the "
-              "theorem is proved for d = 2 (see the report if the general-d file Proofs/Lemmas/C14RS.lean is present)",
-              "PairingToZ1d.project for arbitrary call orders: holds only in increasing order (theorem "
+              "PairingToZ1d.project for arbitrary call orders: false as coded - it holds in increasing order (theorem "
               "z1d_machine_increasing); z1d_order_counterexample is the negation witness (known finding C14-z1d-call-order)",
-              "StatesManager on a box: exactly-once-then-exhaustion is proved under the hypothesis that the bound exceeds "
-              "every in-box index; that max(frontier) satisfies it is proved for no pairing in general d (Szudzik d=2: see "
-              "szudzik_frontier_bound if present); for Rosenberg-Strong it is false (rs_frontier_bound_counterexample, known "
-              "finding C14-rs-frontier-bound)",
+              "StatesManager on a box with Rosenberg-Strong: exactly-once-then-exhaustion is proved under the hypothesis "
+              "that the bound exceeds every in-box index (states_manager_box); the code's bound max(frontier)+1 satisfies it "
+              "for Szudzik, Cantor, Pepis-Kalmar in every dimension >= 2 (monotone_frontier_bound) and violates it for "
+              "Rosenberg-Strong (rs_frontier_bound_counterexample, known finding C14-rs-frontier-bound)",
+              "StatesManager theorems are for the calls x = 0, 1, 2, ... on a fresh object (the inversion sampler's use); "
+              "other call histories and the max_logged reset are compared with M only",
               "Domain boundaries other than `Boundary()` (Rectangle/Simplex/MyBoundary) are not modelled",
-              "the float estimate inside _integer_root is modelled by its exact result (the code corrects it with integers)"]
+              "the float estimate inside _integer_root is modelled by its exact result (the code corrects it with integers); "
+              "Python-level exceptions (dim = 0, empty size list) are outside M"]
 ASSUMPTIONS = ["indices and coordinates are Python ints (arbitrary precision); grids have one common origin index "
                "(CTMCGrid stores a single origin_coordinate)"]
 TRUSTED = ["sympy.factorint / multiplicity and scipy root_scalar inside HyperbolicPairing (oracle only)",
@@ -650,6 +651,9 @@ def run(ctx):
                 probe_z1d_increasing(ctx, dict(L=L, R=R, omit=omit))
     for L, R in ((7, 13), (13, 7), (1, 200), (200, 1), (150, 151), (64, 64)):
         probe_z1d_increasing(ctx, dict(L=L, R=R, omit=True))
+    # the Lean negation witness z1d_order_counterexample, replayed on the implementation
+    for hist in ([6, 5], [5, 6], [6, 0, 1, 2, 3, 4, 5, 6]):
+        probe_z1d_order(ctx, dict(L=2, R=5, omit=True, history=hist))
     for _ in range(ctx.n(150, 1500)):
         L, R = rng.randint(1, 12), rng.randint(1, 12)
         n = L + R
